@@ -14,7 +14,7 @@ import ast
 from fractions import Fraction
 
 from .flow import Ev, Path, PathEnum
-from .model import AnalysisError, Class, Func, Repo, dotted, norm
+from .model import AnalysisError, Class, Func, Repo, dotted, norm, walk_shallow
 
 # --------------------------------------------------------------------------- Lin
 
@@ -519,7 +519,9 @@ class SymExec:
                 out.append(r)
         for r in out:
             r.callee_env = r.env
-            r.env = saved_env
+            # every final state gets its OWN copy of the caller's frame (sharing one dict between the forks of a
+            # multi-path callee let later assignments of one fork leak into the others)
+            r.env = {k: (v.clone() if isinstance(v, GhostList) else v) for k, v in saved_env.items()}
         return out
 
     def run_block(self, stmts, st: State, func: Func, depth=0, loop_iters=None):
@@ -552,8 +554,9 @@ class SymExec:
 
     def event(self, ev: Ev, st: State, func: Func, depth):
         k = ev.kind
-        if k in ("stmt", "cond", "return") and not (k == "stmt" and isinstance(ev.node, ast.Expr) and isinstance(ev.node.value, ast.Call)):
-            root = ev.node if k != "return" else ev.node.value
+        first_iter = k == "iter" and ev.val[0] == "next" and ev.val[1] == 0
+        if first_iter or (k in ("stmt", "cond", "return") and not (k == "stmt" and isinstance(ev.node, ast.Expr) and isinstance(ev.node.value, ast.Call))):
+            root = ev.node.iter if first_iter else ev.node if k != "return" else ev.node.value
             if root is not None and not isinstance(root, ast.FunctionDef | ast.ClassDef):
                 forks = self.prefork(root, st, func, depth)
                 if forks is not None:
@@ -602,11 +605,15 @@ class SymExec:
             if len(targets) != 1 or not precise:
                 continue
             t = targets[0]
-            if not self.inline(t) or t.is_property or self._n_paths(t) < 2 or any(isinstance(x, ast.Yield | ast.YieldFrom) for x in ast.walk(t.node)):
+            is_gen = any(isinstance(x, ast.Yield) for x in walk_shallow(t.node))
+            if any(isinstance(x, ast.YieldFrom) for x in walk_shallow(t.node)):
+                continue
+            if not self.inline(t) or t.is_property or (self._n_paths(t) < 2 and not is_gen):
                 continue
             b = self.bind_args(c, t, st, func, depth)
             if b is None:
                 continue
+            n_eff = len(st.effects)
             finals = self.run_function(t, st, b, depth + 1)
             if len(finals) > 64:
                 continue
@@ -614,6 +621,16 @@ class SymExec:
             for r in finals:
                 r.status = "run"
                 r.call_cache = dict(st.call_cache)
+                if is_gen:
+                    # a generator helper: its value is the sequence of what it yields on this path (consumed eagerly —
+                    # sound for helpers without side effects, which is what the rules using this assume and check)
+                    ys = [e for e in r.effects[n_eff:] if e[0] == "yield"]
+                    r.effects = r.effects[:n_eff] + [e for e in r.effects[n_eff:] if e[0] != "yield"]
+                    r.call_cache[id(c)] = Tup([e[2] for e in ys], "list")
+                    r.ret = st.ret
+                    r.path = st.path
+                    out.append(r)
+                    continue
                 r.call_cache[id(c)] = r.ret if r.ret is not None else Const(None)
                 r.ret = st.ret
                 r.path = st.path
@@ -666,12 +683,19 @@ class SymExec:
             if what == "next":
                 itv = self.eval(node.iter, st, func, depth) if n == 0 else st.env.get(("iter", id(node)))
                 st.env[("iter", id(node))] = itv
+                if isinstance(itv, Tup) and not any(isinstance(x, Star) for x in itv.items) and n >= len(itv.items):
+                    st.status = "infeasible"  # a sequence of known length has no (n+1)-th element
+                    return [st]
                 elem = self.iter_element(st, node, itv, n, func, depth)
                 self.assign(node.target, elem, st, func, depth)
             else:
                 if n == 0:
                     itv = self.eval(node.iter, st, func, depth)
                     st.env[("iter", id(node))] = itv
+                itv = st.env.get(("iter", id(node)))
+                if isinstance(itv, Tup) and not any(isinstance(x, Star) for x in itv.items) and n != len(itv.items):
+                    st.status = "infeasible"  # the loop ends exactly when the known sequence is exhausted
+                    return [st]
                 self.iter_done(st, node, st.env.get(("iter", id(node))), n)
             return [st]
         if k in ("with", "endwith"):
